@@ -322,6 +322,9 @@ func Run(c *common.Ctx) error {
 	if err := haltGrantNotReached(c, c.Rng.Fork()); err != nil {
 		return err
 	}
+	if err := haltLockAcrossFailover(c, c.Rng.Fork()); err != nil {
+		return err
+	}
 	for i := 0; i < c.Pick(2, 6); i++ {
 		if err := haltReleaseWithoutPrimary(c, c.Rng.Fork(), i); err != nil {
 			return err
@@ -1123,5 +1126,106 @@ func walAfterDemotion(c *common.Ctx, cfH *common.CaseFile, r *common.Rand, idx i
 		c.Violate("C07:wal-after-demotion:"+handler+":errno", fmt.Sprintf("%s on a demoted primary answered errno %d, want the read-only permission error EACCES (13)", handler, errno), rep)
 	}
 	cfH.Add(fmt.Sprintf("(%s, false, false, false, true, %d)", handler, acode(errno)), rep)
+	return nil
+}
+
+// haltLockAcrossFailover: a replica holds the halt lock of primary P; P dies; another node - which had missed P's last
+// transaction and commits one of its own - becomes primary and sends the former holder a snapshot, because the positions
+// do not match. The lock died with P: after the snapshot the former holder has no write authority, whatever the
+// snapshot's transaction ids are relative to the position the lock was granted at.
+func haltLockAcrossFailover(c *common.Ctx, r *common.Rand) error {
+	dir, err := os.MkdirTemp(c.OutDir, "c07f-")
+	if err != nil {
+		return err
+	}
+	defer os.RemoveAll(dir)
+	clu := cluster.New(dir, 2*time.Second)
+	clu.Opts = func(name string, s *litefs.Store) {
+		s.HaltAcquireTimeout = 2 * time.Second
+		s.HaltLockTTL = 5 * time.Minute
+	}
+	defer clu.Close()
+	p, err := clu.Start("p", true)
+	if err != nil {
+		return err
+	}
+	if clu.WaitPrimary(5*time.Second) == nil {
+		return fmt.Errorf("no primary")
+	}
+	q, err := clu.Start("q", false) // follows only, for now
+	if err != nil {
+		return err
+	}
+	rn, err := clu.Start("r", false)
+	if err != nil {
+		return err
+	}
+	const ps = 512
+	hp := hist.NewOn(c, r.Fork(), hist.Config{PageSize: ps}, p.Store, p.Exits, "db", nil, 0, false)
+	if err := commitN(hp, 2, false); err != nil {
+		return err
+	}
+	at := p.Store.DB("db").Pos()
+	for _, n := range []*cluster.Node{q, rn} {
+		if !cluster.WaitPos(n, "db", uint64(at.TXID), uint64(at.PostApplyChecksum), 10*time.Second) {
+			return fmt.Errorf("%s did not catch up", n.Name)
+		}
+	}
+	q.Stop() // q misses the next transaction
+	if err := commitN(hp, 1, false); err != nil {
+		return err
+	}
+	at = p.Store.DB("db").Pos()
+	if !cluster.WaitPos(rn, "db", uint64(at.TXID), uint64(at.PostApplyChecksum), 10*time.Second) {
+		return fmt.Errorf("r did not catch up")
+	}
+	rdb := rn.Store.DB("db")
+	hl, err := rdb.AcquireRemoteHaltLock(context.Background(), 81)
+	if err != nil {
+		return fmt.Errorf("halt: %v", err)
+	}
+	p.Stop() // the primary dies, and the lock with it
+	if q, err = clu.Start("q", true); err != nil {
+		return err
+	}
+	deadline := time.Now().Add(8 * time.Second)
+	for !q.Store.IsPrimary() && time.Now().Before(deadline) {
+		time.Sleep(5 * time.Millisecond)
+	}
+	if !q.Store.IsPrimary() {
+		c.Count("failover_no_new_primary", 1)
+		return nil
+	}
+	qim, _ := lfs.ReadImage(filepath.Join(q.Dir, "dbs", "db"))
+	hq := hist.NewOn(c, r.Fork(), hist.Config{PageSize: ps}, q.Store, q.Exits, "db", qim, uint64(q.Store.DB("db").Pos().TXID), false)
+	if err := commitN(hq, 1, false); err != nil { // its own transaction with the id of the one it missed
+		return err
+	}
+	want := q.Store.DB("db").Pos()
+	c.Evaluations++
+	c.Distinct("halt-lock-across-failover")
+	rep := map[string]any{"kind": "readonly-halt-failover", "lock_granted_at": fmt.Sprint(hl.Pos), "new_primary_at": fmt.Sprint(want)}
+	if !cluster.WaitPos(rn, "db", uint64(want.TXID), uint64(want.PostApplyChecksum), 8*time.Second) {
+		c.Count("failover_holder_did_not_follow", 1)
+		return nil
+	}
+	time.Sleep(30 * time.Millisecond)
+	if rdb.HasRemoteHaltLock() || rdb.Writeable() {
+		c.Violate("C07:halt-failover:still-writeable", fmt.Sprintf("the node held the halt lock of a primary that died (granted at %s); the new primary replaced its database by a snapshot (now at %s), and it still counts as holder of that lock (has lock: %v, writeable: %v)", hl.Pos, rdb.Pos(), rdb.HasRemoteHaltLock(), rdb.Writeable()), rep)
+		return nil
+	}
+	// and the mount refuses its writes
+	m := newMount(filepath.Join(dir, "mnt-r"), rn.Store)
+	before := snapshot(rn, "db")
+	for _, hnd := range []string{"HCreateJournal", "HWriteDB"} {
+		op := handlerOp{Handler: hnd, DB: "db", Locks: "none", Arg: 1}
+		errno, _ := m.exec(op, 931, ps, lfs.MakePage(ps, 1, r.U64(), before.pageN, false))
+		after := snapshot(rn, "db")
+		c.Evaluations++
+		if errno == 0 || before != after {
+			c.Violate("C07:halt-failover:"+hnd, fmt.Sprintf("%s on the former holder answered errno %d; database %+v -> %+v", hnd, errno, before, after), rep)
+			return nil
+		}
+	}
 	return nil
 }
